@@ -56,8 +56,9 @@ class InterruptPolicy:
             put(ev['trace_no'], ev['prompt_no'], self.cmd)
         else:
             self.done = True
-            import _thread
-            _thread.interrupt_main()
+            import signal
+            import threading
+            signal.pthread_kill(threading.main_thread().ident, signal.SIGINT)
 
 
 def make_policy(args):
@@ -102,13 +103,15 @@ def gen_jobs(rng, tier: str) -> list:
 
     for i, (name, src) in enumerate(progen.FIXED):
         for k, form in enumerate(c05.FORMS[:3]):
+            if name == 'syntax-error' and form == 'code':
+                continue                # a code object cannot be built from it
             mk(lambda p, r, s=src: s, 'fixed:' + name, form, pols[(i + k) % len(pols)], True, k == 2)
     # Ctrl-C while a prompt is open
     for i, (after, cmd) in enumerate([(0, 'next'), (2, 'step'), (3, 'next'), (4, 'step')]):
         src = 'def f(a):\n    b = a + 1\n    return b\nx = f(1)\ny = f(x)\nprint(y)\n'
         jobs.append({'src': src, 'form': c05.FORMS[i % 3], 'trace_threads': True, 'trace_modules': False, 'pol': 'interrupt',
                      'policy': {'kind': 'custom', 'module': 'harness.props.c04', 'func': 'make_policy', 'args': {'after': after, 'cmd': cmd}},
-                     'reference': True, 'timeout': 40, 'name': f'interrupt{i}', 'interrupt': True})
+                     'reference': True, 'timeout': 15, 'name': f'interrupt{i}', 'interrupt': True})
     max_size, nrand = (2, 50) if tier == 'quick' else (3, 1500)
     blocks = list(progen.enumerate_programs(max_size))
     if tier == 'quick':
@@ -133,17 +136,35 @@ def oracle(job: dict, res: dict, ref: dict) -> tuple[list, tuple]:
     def nf(f):
         return c05.norm_file(f, sfile)
 
-    fmt = res.get('fmt_exc') or ''
+    fmt_all = res.get('fmt_exc') or ''
+    # traceback.format_exception prints the __context__ / __cause__ chain first; the exception itself is the last section
+    sections = re.split(r'\n(?:During handling of the above exception, another exception occurred:|'
+                        r'The above exception was the direct cause of the following exception:)\n\n', fmt_all)
+    fmt = sections[-1]
+    chained = '\n'.join(sections[:-1])
     tb = parse_tb(fmt)
     etype, emsg = exc_head(fmt)
     obs_cls = [fclass(f, nf) for f, _, _ in tb]
     if job.get('interrupt'):
         if etype != 'KeyboardInterrupt':
             bad.append(('interrupt:not-a-keyboard-interrupt', f'Ctrl-C while a prompt was open: result is {etype or "no exception"}'))
+        prompts = [e for e in res.get('events', []) if e['type'] == 'OnStartPrompt']
+        at = prompts[-1]['event'] if prompts else '?'
         if any(c in (1, 2, 3, 4) for c in obs_cls) or (obs_cls and obs_cls[0] != 0):
-            bad.append(('traceback:nextline-frames', f'KeyboardInterrupt traceback contains non-user frames: {tb}'))
-        user = [c for c in obs_cls if c in (0, 5)]
-        return bad, ((2, [1] + user + [3, 4, 4, 5], obs_cls) if user else None)
+            nl = [[f, n] for f, _, n in tb if NEXTLINE_FILE.search(f)]
+            bad.append(('interrupt:nextline-frames-in-traceback:prompt-at-call-event' if at == 'call' else 'traceback:nextline-frames',
+                        f'Ctrl-C while the prompt of a {at!r} event was open: the traceback of the KeyboardInterrupt contains {len(nl)} '
+                        f'Nextline/pluggy frames after the user\'s frames, first {nl[:2]} (local_.clean_exception cuts at the first WithContext '
+                        f'frame; a call event reaches WithContext through global_.py and pluggy)'))
+        ctx_frames = [f for f, _, _ in parse_tb(chained) if NEXTLINE_FILE.search(f)]
+        if ctx_frames:
+            bad.append(('interrupt:nextline-frames-in-chained-context',
+                        f'Ctrl-C while a prompt was open: the traceback of the KeyboardInterrupt is the user\'s ({[[l, n] for _, l, n in tb]}), but the '
+                        f'formatted exception (RunResult.fmt_exc) first prints its __context__ -- the original KeyboardInterrupt -- with '
+                        f'{len(ctx_frames)} Nextline/pluggy frames, e.g. {ctx_frames[0]} (clean_exception cleans exc.__traceback__ only)'))
+        k = next((i for i, c in enumerate(obs_cls) if c not in (0, 5)), len(obs_cls))
+        user, mid = obs_cls[:k], obs_cls[k:]        # mid: frames between the user's and WithContext's (call events only)
+        return bad, ((2, [1] + user + mid + [3, 4, 4, 5], obs_cls) if user and 3 not in mid else None)
     # ---- return value
     if (res.get('ret') or 'None') != (ref.get('ret') or 'None') and not ref.get('exc_type'):
         bad.append(('return-value-differs', f'returned {res.get("ret")} under nextline, {ref.get("ret")} directly'))
